@@ -305,12 +305,31 @@ class SymCtx(_CtxBase):
             if r2 != z3.sat:
                 r2 = s.check(neg)
             inputs = {}
+            alts = []
             if r2 == z3.sat:
                 m = s.model()
                 for k, (ty, t) in self.inputs.items():
                     v = m.eval(t, model_completion=True)
                     inputs[k] = _model_value(ty, v)
-            rec["refuted"].append({"inputs": inputs, "have_model": r2 == z3.sat})
+                # a few more counter-models (differing in some named input): the native state built from a model fills everything the
+                # model leaves open with defaults, and one model may therefore fail to reproduce where another one does
+                if len(rec["refuted"]) < 3 and self.inputs:
+                    try:
+                        s.push()
+                        s.add(neg)
+                        cur = m
+                        for _ in range(3):
+                            diff = [t != cur.eval(t, model_completion=True) for k, (ty, t) in self.inputs.items() if ty != "real"]
+                            if not diff:
+                                break
+                            s.add(z3.Or(*diff))
+                            if s.check() != z3.sat:
+                                break
+                            cur = s.model()
+                            alts.append({k: _model_value(ty, cur.eval(t, model_completion=True)) for k, (ty, t) in self.inputs.items()})
+                    finally:
+                        s.pop()
+            rec["refuted"].append({"inputs": inputs, "have_model": r2 == z3.sat, "alt_inputs": alts})
             return
         rec["undecided"].append(str(s.reason_unknown()))
 
@@ -599,16 +618,19 @@ def run_obligation(ob, seed, tier):
                "solver_s": round(c["time"], 4), "replayed": []}
         res["solver_s"] += c["time"]
         for r in c["refuted"][:5]:
-            rep = {"inputs": r["inputs"], "reproduced": False}
-            try:
-                ctx = _run_native_once(ob, inputs=r["inputs"])
-                if ctx is not None and label in ctx.failed:
-                    rep["reproduced"] = True
-                elif ctx is not None and ctx.failed:
-                    rep["other_failed"] = ctx.failed[:3]
-            except BaseException as e:
-                rep["replay_error"] = f"{type(e).__name__}: {e}"
-            out["replayed"].append(rep)
+            for cand in [r["inputs"]] + list(r.get("alt_inputs", [])):
+                rep = {"inputs": cand, "reproduced": False}
+                try:
+                    ctx = _run_native_once(ob, inputs=cand)
+                    if ctx is not None and label in ctx.failed:
+                        rep["reproduced"] = True
+                    elif ctx is not None and ctx.failed:
+                        rep["other_failed"] = ctx.failed[:3]
+                except BaseException as e:
+                    rep["replay_error"] = f"{type(e).__name__}: {e}"
+                out["replayed"].append(rep)
+                if rep["reproduced"]:
+                    break
         if c["undecided"]:
             out["reason_unknown"] = c["undecided"][:2]
         res["labels"][label] = out
